@@ -1,7 +1,8 @@
 (* Reader.v — model of shared.readerToScanner and shared.SlickReaderStream
    (shared/reader.go) over an io.Reader that delivers its data according to an
    arbitrary *read schedule*: chunk sizes, end-of-file reported together with
-   the last data or separately, zero-length reads, and faults.  The abstract
+   the last data or separately, zero-length reads (anywhere: also after the
+   last byte, the end of input being reported by a later Read), and faults.  The abstract
    stream the decoders are written against is a plain byte list.
    Behaviour modelled is the one after fix D9: ReadByte retries a (0, nil)
    read (at most [max_empty] times, then io.ErrNoProgress). *)
@@ -27,6 +28,7 @@ Definition src_read (s : source) (k : nat) : bytes * option rerr * source :=
   | [] =>
       match ssched s with
       | SFault :: rest => ([], Some RFault, Src [] rest)
+      | SChunk O _ :: rest => ([], None, Src [] rest)   (* a (0, nil) read even here: the end is reported by a later Read *)
       | _ :: rest => ([], Some REof, Src [] rest)
       | [] => ([], Some REof, s)
       end
